@@ -1,3 +1,415 @@
 package main
 
-func checkMain(args []string) int { return 0 }
+// Property check driver: obligations of the functions a property lists, lock comparison,
+// known findings, replay, evidence.
+
+import (
+	"encoding/json"
+	"flag"
+	"fmt"
+	"os"
+	"path/filepath"
+	"sort"
+	"strconv"
+	"strings"
+	"sync"
+	"time"
+)
+
+type PropConfig struct {
+	Functions     []string `json:"functions"`      // canonical keys of functions under contract
+	NotApplicable []string `json:"not_applicable"` // clauses declared N/A (informational, copied to evidence)
+	Assumptions   []string `json:"assumptions"`
+	Bounded       []string `json:"bounded"` // names of bounded stand-ins (run by `bounded` subcommand)
+}
+
+type KnownFinding struct {
+	Property   string `json:"property"`
+	Obligation string `json:"obligation"`
+	What       string `json:"what"`
+	Status     string `json:"status"` // known | fixed
+	Commit     string `json:"commit,omitempty"`
+}
+
+type oblRecord struct {
+	Name    string `json:"name"`
+	Kind    string `json:"kind"`
+	Result  string `json:"result"`
+	Backend string `json:"backend"`
+	Ms      int64  `json:"ms"`
+	Pos     string `json:"pos,omitempty"`
+	Clause  string `json:"clause,omitempty"`
+}
+
+func readJSON(path string, v interface{}) error {
+	data, err := os.ReadFile(path)
+	if err != nil {
+		return err
+	}
+	return json.Unmarshal(data, v)
+}
+
+func checkMain(args []string) int {
+	fs := flag.NewFlagSet("check", flag.ExitOnError)
+	tier := fs.String("tier", "", "quick|thorough")
+	updateLock := fs.Bool("update-lock", false, "rewrite the lock entry of this property from the current run (manual step, never part of a registered command)")
+	replayPath := fs.String("replay", "", "re-run the replay recorded in this file")
+	if len(args) == 0 {
+		fmt.Fprintln(os.Stderr, "usage: govc check <Cnn> [--tier quick|thorough]")
+		return 2
+	}
+	prop := args[0]
+	fs.Parse(args[1:])
+	if *tier == "" {
+		*tier = os.Getenv("VERIF_TIER")
+	}
+	if *tier == "" {
+		*tier = "quick"
+	}
+	seed := 0
+	if s := os.Getenv("VERIF_SEED"); s != "" {
+		seed, _ = strconv.Atoi(s)
+	}
+	if *replayPath != "" {
+		return replayMain(prop, *replayPath)
+	}
+	start := time.Now()
+	var props map[string]*PropConfig
+	if err := readJSON(filepath.Join(verifDir, "specs", "properties.json"), &props); err != nil {
+		fmt.Fprintln(os.Stderr, "cannot read properties.json:", err)
+		return 2
+	}
+	pc := props[prop]
+	if pc == nil {
+		fmt.Fprintln(os.Stderr, "unknown property", prop)
+		return 2
+	}
+	var lock map[string][]string
+	_ = readJSON(filepath.Join(verifDir, "baseline", "obligations.lock"), &lock)
+	var known []KnownFinding
+	_ = readJSON(filepath.Join(verifDir, "known_findings.json"), &known)
+
+	timeout := 10
+	all := false
+	if *tier == "thorough" {
+		timeout = 60
+		all = true
+	}
+
+	replayDir := filepath.Join(verifDir, "replay", prop)
+	os.RemoveAll(replayDir)
+	os.MkdirAll(replayDir, 0o755)
+
+	violations := 0
+	report := func(obl string, what string, replay string, confirmed bool) {
+		violations++
+		line := fmt.Sprintf("VIOLATION property=%s replay=%s", prop, replay)
+		if !confirmed {
+			line += " no-failing-input-found"
+		}
+		fmt.Println(line)
+		fmt.Printf("  obligation: %s\n  %s\n", obl, what)
+	}
+
+	w, err := loadWorld([]string{"./src/..."})
+	if err != nil {
+		// the tree does not load: nothing can be verified; this is a violation of every obligation
+		rp := filepath.Join(replayDir, "load-failure.txt")
+		os.WriteFile(rp, []byte("obligation: <load>\n"+err.Error()+"\n"), 0o644)
+		report("<load>", "repository or contracts failed to load: "+err.Error(), rp, false)
+		writeEvidence(prop, *tier, seed, nil, nil, nil, pc, time.Since(start), violations, nil, w)
+		return 1
+	}
+
+	var records []oblRecord
+	var allObls []*Obligation
+	var abstracted []string
+	funcsSeen := map[string]bool{}
+	var genErrors []string
+	type fr struct {
+		key string
+		res *funcResult
+		err error
+	}
+	results := make([]fr, len(pc.Functions))
+	// generation is sequential (shared counters); solving is parallel inside verifyFunc
+	for i, key := range pc.Functions {
+		r, err := w.verifyFunc(key, timeout, all, "")
+		results[i] = fr{key, r, err}
+	}
+	for _, r := range results {
+		if r.err != nil {
+			genErrors = append(genErrors, r.err.Error())
+			continue
+		}
+		funcsSeen[r.key] = true
+		for _, e := range r.res.Errors {
+			genErrors = append(genErrors, r.key+": "+e)
+		}
+		for _, a := range r.res.VC.Abstracted {
+			abstracted = append(abstracted, r.key+": "+a)
+		}
+		for _, o := range r.res.VC.Obls {
+			allObls = append(allObls, o)
+			records = append(records, oblRecord{o.Name, o.Kind, o.Result, o.Backend, o.Ms, o.Pos, o.Text})
+		}
+	}
+
+	// vacuity guard: every function's obligations must be reachable under its assumptions
+	var vcs []vcAndKey
+	for _, r := range results {
+		if r.res != nil {
+			vcs = append(vcs, vcAndKey{r.key, r.res.VC})
+		}
+	}
+	vacuous := vacuityCheck(vcs, timeout)
+
+	current := map[string]*Obligation{}
+	for _, o := range allObls {
+		current[o.Name] = o
+	}
+	if *updateLock {
+		if lock == nil {
+			lock = map[string][]string{}
+		}
+		var names []string
+		for _, o := range allObls {
+			if o.Result == "unsat" {
+				names = append(names, o.Name)
+			}
+		}
+		sort.Strings(names)
+		lock[prop] = names
+		data, _ := json.MarshalIndent(lock, "", " ")
+		os.MkdirAll(filepath.Join(verifDir, "baseline"), 0o755)
+		os.WriteFile(filepath.Join(verifDir, "baseline", "obligations.lock"), append(data, '\n'), 0o644)
+		fmt.Printf("lock updated: %d obligations for %s\n", len(names), prop)
+	}
+
+	isKnown := func(name string) *KnownFinding {
+		for i := range known {
+			k := &known[i]
+			if k.Property == prop && k.Obligation == name && k.Status == "known" {
+				return k
+			}
+		}
+		return nil
+	}
+	knownHit := []string{}
+	locked := map[string]bool{}
+	for _, n := range lock[prop] {
+		locked[n] = true
+	}
+	for _, e := range genErrors {
+		rp := filepath.Join(replayDir, "generation-error.txt")
+		f, _ := os.OpenFile(rp, os.O_APPEND|os.O_CREATE|os.O_WRONLY, 0o644)
+		fmt.Fprintf(f, "obligation: <contract-binding>\n%s\n", e)
+		f.Close()
+		report("<contract-binding>", "contract could not be bound to the code: "+e, rp, false)
+	}
+	for _, v := range vacuous {
+		rp := filepath.Join(replayDir, "vacuity.txt")
+		f, _ := os.OpenFile(rp, os.O_APPEND|os.O_CREATE|os.O_WRONLY, 0o644)
+		fmt.Fprintf(f, "obligation: <vacuity>\n%s\n", v)
+		f.Close()
+		report("<vacuity>", v, rp, false)
+	}
+	// locked obligations must exist and be discharged
+	for _, n := range lock[prop] {
+		o := current[n]
+		if o == nil {
+			if k := isKnown(n); k != nil {
+				continue
+			}
+			rp := filepath.Join(replayDir, mangle(n)+".txt")
+			os.WriteFile(rp, []byte("obligation: "+n+"\nstatus: missing — the function, clause or program point this obligation was generated from no longer exists\n"), 0o644)
+			report(n, "obligation proved on the baseline is no longer generated (target missing)", rp, false)
+		}
+	}
+	discharged := 0
+	counted := 0
+	for _, o := range allObls {
+		if o.Result == "unsat" {
+			discharged++
+			counted++
+			continue
+		}
+		if k := isKnown(o.Name); k != nil {
+			fmt.Printf("KNOWN-FINDING: property=%s %s %s\n", prop, o.Name, k.What)
+			knownHit = append(knownHit, o.Name)
+			continue
+		}
+		counted++
+		if !locked[o.Name] && o.Result != "sat" {
+			fmt.Fprintf(os.Stderr, "UNDECIDED %s (%s, not in the baseline lock)\n", o.Name, o.Result)
+			counted--
+			continue
+		}
+		rp, confirmed := doReplay(w, prop, o, replayDir)
+		what := fmt.Sprintf("%s [%s] at %s: solver verdict %s (%s)", o.Text, o.Kind, o.Pos, o.Result, o.Backend)
+		report(o.Name, what, rp, confirmed)
+	}
+	writeEvidence(prop, *tier, seed, records, abstracted, knownHit, pc, time.Since(start), violations, allObls, w)
+	fmt.Printf("%s %s: %d obligations, %d discharged, %d known findings, %d violations, %.1fs\n", prop, *tier, counted, discharged, len(knownHit), violations, time.Since(start).Seconds())
+	if violations > 0 {
+		return 1
+	}
+	return 0
+}
+
+type vcAndKey struct {
+	key string
+	vc  *VC
+}
+
+// vacuityCheck: for each function, the assumptions visible at each obligation must be satisfiable together
+// with the obligation's guard (otherwise the obligation holds vacuously).
+func vacuityCheck(vcs []vcAndKey, timeout int) []string {
+	var out []string
+	var mu sync.Mutex
+	var wg sync.WaitGroup
+	sem := make(chan struct{}, 16)
+	for _, v := range vcs {
+		seen := map[string]bool{}
+		for _, o := range v.vc.Obls {
+			id := fmt.Sprintf("%s|%d", o.Guard, o.NAssumes)
+			if seen[id] {
+				continue
+			}
+			seen[id] = true
+			wg.Add(1)
+			go func(v vcAndKey, o *Obligation) {
+				defer wg.Done()
+				sem <- struct{}{}
+				defer func() { <-sem }()
+				q := v.vc.CoverQuery(o.Guard, o.NAssumes)
+				r := decide(solve(q, timeout, false))
+				if r.verdict == "unsat" {
+					mu.Lock()
+					out = append(out, fmt.Sprintf("%s: program point of %s is unreachable under the assumed contracts (vacuous proof)", v.key, o.Name))
+					mu.Unlock()
+				}
+			}(v, o)
+		}
+	}
+	wg.Wait()
+	sort.Strings(out)
+	return out
+}
+
+func writeEvidence(prop, tier string, seed int, recs []oblRecord, abstracted, knownHit []string, pc *PropConfig, wall time.Duration, violations int, obls []*Obligation, w *World) {
+	total, discharged := 0, 0
+	backends := map[string]int{}
+	var solverMs int64
+	knownSet := map[string]bool{}
+	for _, k := range knownHit {
+		knownSet[k] = true
+	}
+	for _, r := range recs {
+		if knownSet[r.Name] {
+			continue
+		}
+		total++
+		if r.Result == "unsat" {
+			discharged++
+		}
+		backends[r.Backend]++
+		solverMs += r.Ms
+	}
+	var samples []interface{}
+	for i, o := range obls {
+		if i%7 == 0 && len(samples) < 4 && o.Result == "unsat" {
+			samples = append(samples, map[string]interface{}{"obligation": o.Name, "clause": o.Text, "position": o.Pos, "goal_smt": truncate(o.Goal, 600), "guard_smt": truncate(o.Guard, 200), "verdict": o.Result, "backend": o.Backend})
+		}
+	}
+	if len(samples) == 0 {
+		for _, o := range obls {
+			samples = append(samples, map[string]interface{}{"obligation": o.Name, "clause": o.Text, "verdict": o.Result})
+			break
+		}
+	}
+	if len(samples) == 0 {
+		samples = append(samples, "no obligations generated (see violations)")
+	}
+	trusted := []string{
+		"govc VC generator (this repository's /verif/govc): SSA-to-SMT translation, memory model, loop cutting",
+		"SMT solvers z3 5.1.0 / cvc5 1.0.x / z3 4.8.12 (first definite answer wins; thorough tier requires agreement)",
+		"integers are mathematical (machine overflow not modelled)",
+		"sequential consistency; within one function other goroutines interfere only at declared interference points (lock, wait, channel operations, calls marked yields)",
+	}
+	if w != nil {
+		used := []string{}
+		for k, c := range w.specs.Contracts {
+			if c.Used && !strings.Contains(c.File, "/repo/") {
+				used = append(used, k)
+			}
+		}
+		sort.Strings(used)
+		for _, k := range used {
+			trusted = append(trusted, "assumed contract (extern/library): "+k)
+		}
+		for _, ax := range w.specs.Axioms {
+			trusted = append(trusted, "axiom "+ax.Name+": "+ax.Text)
+		}
+		for k, c := range w.specs.Contracts {
+			if c.Flags["trusted"] != "" {
+				trusted = append(trusted, "trusted contract (body not verified): "+k)
+			}
+		}
+	}
+	var assumptions []string
+	if pc != nil {
+		assumptions = append(assumptions, pc.Assumptions...)
+	}
+	assumptions = append(assumptions, "mathematical integers", "sequential consistency / thread-modular interference model", "library contracts under /verif/specs are assumed, not proved")
+	ev := map[string]interface{}{
+		"property_id": prop,
+		"tier":        tier,
+		"seed":        seed,
+		"level":       "proof",
+		"wall_s":      wall.Seconds(),
+		"violations":  violations,
+		"assumptions": assumptions,
+		"coverage": map[string]interface{}{
+			"obligations":              total,
+			"discharged":               discharged,
+			"checker_cmd":              "/verif/bin/govc check " + prop + " --tier " + tier,
+			"trusted_base":             trusted,
+			"samples":                  samples,
+			"functions_under_contract": pcFuncs(pc),
+			"per_obligation":           recs,
+			"backends":                 backends,
+			"solver_ms_total":          solverMs,
+			"abstracted":               abstracted,
+			"known_findings_hit":       knownHit,
+			"not_applicable_clauses":   pcNA(pc),
+			"bounded":                  pcBounded(pc),
+		},
+	}
+	if total == 0 {
+		ev["level"] = "other"
+		ev["coverage"].(map[string]interface{})["explanation"] = "no obligation could be generated in this run (load or contract-binding failure); see violations"
+	}
+	data, _ := json.MarshalIndent(ev, "", " ")
+	os.MkdirAll(filepath.Join(verifDir, "evidence"), 0o755)
+	os.WriteFile(filepath.Join(verifDir, "evidence", prop+".json"), append(data, '\n'), 0o644)
+}
+
+func pcFuncs(pc *PropConfig) []string {
+	if pc == nil {
+		return nil
+	}
+	return pc.Functions
+}
+func pcNA(pc *PropConfig) []string {
+	if pc == nil {
+		return nil
+	}
+	return pc.NotApplicable
+}
+func pcBounded(pc *PropConfig) []string {
+	if pc == nil {
+		return nil
+	}
+	return pc.Bounded
+}
